@@ -1,8 +1,64 @@
 import Driver.Util
-/-! Driver commands: Engine (stub — replaced by the real handler). -/
+import Slock.Model.Engine
+/-! Driver command for the lock engine:
+  engine <now0> <op>;<op>;…      one whole operation sequence per line
+ops:  L|U req conn flag lockId key tflag timeout eflag expried count rcount   |  T (one second)  |  R 0|1 (leader)  |  S (snapshot)
+output: per op, `;`-joined: replies `conn:req:result:lcount:lrcount:lockId:count:rcount` `,`-joined (`-` if none); S prints the state.
+-/
 namespace Driver
+open Slock.Engine
+
+def showReply (r : Reply) : String :=
+  s!"{r.conn}:{r.req}:{r.result}:{r.lcount}:{r.lrcount}:{r.lockId}:{r.count}:{r.rcount}"
+
+def showReplies (rs : List Reply) : String :=
+  if rs.isEmpty then "-" else ",".intercalate (rs.map showReply)
+
+def sortKeys (ks : List Key) : List Key := sortBySeq (·.key) ks
+
+def showExp (t : Nat) : String := if t == INF_TIME then "inf" else toString t
+
+def showKey (k : Key) : String :=
+  let hs := " ".intercalate (k.holders.map (fun h => s!"{h.cmd.lockId}.{h.depth}.{showExp h.expT}.{h.cmd.req}"))
+  let ws := " ".intercalate (k.waiters.map (fun w => s!"{w.cmd.lockId}.{w.cmd.req}.{w.timeoutT}"))
+  s!"k{k.key}={k.locked}/{if k.waited then 1 else 0}/[{hs}]/[{ws}]"
+
+def showCtr (c : Counters) : String :=
+  s!"lc={c.lockCount} uc={c.unLockCount} ld={c.lockedCount.toNat % 4294967296} wc={c.waitCount.toNat % 4294967296} to={c.timeoutedCount} ex={c.expriedCount} ue={c.unlockErrorCount}"
+
+def showDB (db : DB) : String :=
+  "|".intercalate ((sortKeys db.keys).map showKey) ++ "|" ++ showCtr db.ctr
+
+def parseCmd (ts : List String) : Option Cmd :=
+  match ts.mapM String.toNat? with
+  | some [req, conn, flag, lockId, key, tflag, timeout, eflag, expried, count, rcount] =>
+    some { req, conn, flag, lockId, key, tflag, timeout, eflag, expried, count, rcount }
+  | some [req, conn, flag, lockId, key, tflag, timeout, eflag, expried, count, rcount, mgr] =>
+    some { req, conn, flag, lockId, key, tflag, timeout, eflag, expried, count, rcount, mgr := mgr != 0 }
+  | _ => none
+
+def engineOp (db : DB) (op : String) : Option (DB × String) :=
+  match (op.splitOn " ").filter (· ≠ "") with
+  | "L" :: ts => do let c ← parseCmd ts; let (d, rs) := opLock db c; pure (d, showReplies rs)
+  | "U" :: ts => do let c ← parseCmd ts; let (d, rs) := opUnlock db c; pure (d, showReplies rs)
+  | ["T"] => let (d, rs) := opTick db; some (d, showReplies rs)
+  | ["R", b] => some ({ db with leader := b == "1" }, "-")
+  | ["S"] => some (db, showDB db)
+  | _ => none
+
+def runEngine (db : DB) : List String → List String → Option (List String)
+  | [], acc => some acc.reverse
+  | op :: ops, acc =>
+    match engineOp db op with
+    | some (d, s) => runEngine d ops (s :: acc)
+    | none => none
 
 def handleEngine : List String → Option String
+  | "engine" :: now0 :: rest => do
+    let n ← now0.toNat?
+    let ops := ((" ".intercalate rest).splitOn ";").filter (· ≠ "")
+    let outs ← runEngine (DB.init n) ops []
+    pure (";".intercalate outs)
   | _ => none
 
 end Driver
